@@ -138,6 +138,93 @@ def one_individual(ctx, x, rng):
         cmp("genome.remove", req, impl)
 
 
+def interleaved_ops_case(ctx, rng):
+    """individuals are shared between worker threads (a population's individuals are handed to parallel mutation / evaluation tasks): an operation
+    on a FRESH individual object that is pre-empted after its k-th executed source line inside the package, while another thread runs a whole
+    operation on the same object, must still return what it returns alone — and so must the other one.  (Line-level pre-emption via sys.settrace.)"""
+    import sys
+    import threading
+
+    x0 = G.gen_individual(rng, wild=False)
+    if len(x0.layers) < 2 or not x0.parameter_values:
+        x0 = EVQEIndividual.random_individual(rng.randint(1, 3), rng.randint(2, 4), True, rng.randrange(2**31))
+    nl = len(x0.layers)
+    la, lb = rng.randrange(nl), rng.randrange(nl)
+    va = tuple(0.25 * (i + 1) for i in range(x0.layers[la].n_parameters))
+
+    def fresh():
+        return EVQEIndividual(x0.n_qubits, x0.layers, tuple(x0.parameter_values))
+
+    def op_a(x):
+        return G.indiv_struct(EVQEIndividual.change_layer_parameter_values(x, la, va))
+
+    def op_b(x):
+        return (tuple(x.get_layer_parameter_values(lb)), G.indiv_struct(EVQEIndividual.remove_layers(x, 1)) if nl >= 2 else None)
+
+    ref_a, ref_b = op_a(fresh()), op_b(fresh())
+    # how many package lines does op_a execute?
+    count = [0]
+
+    def counter(frame, event, arg):
+        if "/queasars/" in frame.f_code.co_filename:
+            if event == "line":
+                count[0] += 1
+            return counter
+        return None
+
+    xf = fresh()  # (built before tracing starts, as in the interleaved runs)
+    sys.settrace(counter)
+    try:
+        op_a(xf)
+    finally:
+        sys.settrace(None)
+    total = count[0]
+    inp = {"interleaved_ops": {"individual": G.indiv_json(x0, G.Tokens()), "layer_a": la, "layer_b": lb, "package_lines_of_a": total}}
+    ctx.case(inp, True, tags=["interleaved-threads"])
+    points = sorted(set(rng.sample(range(1, total + 1), min(total, 25)))) if total else []
+    for k in points:
+        x = fresh()
+        out = {}
+        parked, go = threading.Event(), threading.Event()
+        seen = [0]
+
+        def tracer(frame, event, arg):
+            if "/queasars/" in frame.f_code.co_filename:
+                if event == "line":
+                    seen[0] += 1
+                    if seen[0] == k:
+                        parked.set()
+                        go.wait(10)
+                return tracer
+            return None
+
+        def run_a():
+            sys.settrace(tracer)
+            try:
+                out["a"] = op_a(x)
+            except Exception as e:  # noqa: BLE001
+                out["a"] = "exc:" + type(e).__name__ + ":" + str(e)[:60]
+            finally:
+                sys.settrace(None)
+                parked.set()  # (finished without reaching line k: nothing to interleave)
+
+        t = threading.Thread(target=run_a, daemon=True)
+        t.start()
+        parked.wait(5)
+        try:
+            out["b"] = op_b(x)
+        except Exception as e:  # noqa: BLE001
+            out["b"] = "exc:" + type(e).__name__ + ":" + str(e)[:60]
+        go.set()
+        t.join(20)
+        if out.get("a") != ref_a or out.get("b") != ref_b:
+            ctx.violate("an operation on an individual shared by two threads does not return what it returns alone (valid individual with only the documented change, "
+                        "or the documented exception)", dict(inp, preempted_after_line=k),
+                        {"a_differs": out.get("a") != ref_a, "b_differs": out.get("b") != ref_b, "a": str(out.get("a"))[:160], "b": str(out.get("b"))[:160]},
+                        key="C16:interleaved")
+            return
+
+
 def run(ctx):
     rng = ctx.rng
     for _ in range(ctx.n(120, 2500)):
@@ -153,6 +240,10 @@ def run(ctx):
                 vals = tuple(special if i == k else float(v) for i, v in enumerate(x.parameter_values))
                 ctx.dist["hash-equal sibling"] += 1
                 one_individual(ctx, EVQEIndividual(x.n_qubits, x.layers, vals), rng)
+    for _ in range(ctx.n(12, 150)):
+        if ctx.out_of_time():
+            break
+        interleaved_ops_case(ctx, rng)
     # deep individuals: appending zero layers when the new layer ids cross the decimal boundaries 100 / 1000 of the (zero-padded) parameter names —
     # the values of the existing layers must stay bound to their own gates
     for nl in [rng.randint(98, 100), rng.randint(998, 1000)] + ([rng.randint(9995, 10000)] if ctx.thorough() else []):
@@ -177,6 +268,11 @@ def replay(ctx, case):
     import random
 
     inp = case.get("case", case).get("input", case.get("input"))
+    if "interleaved_ops" in inp:
+        ctx.case(inp, True, tags=["replay"])
+        for _ in range(8):
+            interleaved_ops_case(ctx, random.Random(_))
+        return
     if "deep_zero_append" in inp:
         d = inp["deep_zero_append"]
         x = EVQEIndividual.random_individual(d["n_qubits"], d["n_layers"], True, d["individual_seed"])
